@@ -27,6 +27,16 @@
  *             by one month (year) -- more only over dates the scale does not have --, strictly increasing,
  *             and the stream must not end before COUNT while the next date lies inside the calendar
  *
+ *   mode=calscale  the calendar-level output scale: calendars `CALSCALE:<name>' with a recurring event
+ *             DTSTART(;VALUE=DATE):<Gregorian day> RRULE:FREQ=DAILY;COUNT=1500 (all-day and at 12:00:00Z), starts every
+ *             four years 1938..2074 so that every day of the span is visited; the stream delivers instants labelled with a
+ *             Hijri scale: the k-th must be echs_instant_rescale() of DTSTART + k days into the scale it is labelled with
+ *             (judged by g2h/h2g), i.e. consecutive days stay consecutive days on their way through the stream's cache
+ *   mode=text the scales as the text interface reads them: every Gregorian day of one year is converted with
+ *             echs_instant_rescale() and written as DTSTART;VALUE=DATE;SCALE=<name>:yyyymmdd (and as ...;SCALE=<name>:yyyymmddT120000Z),
+ *             one non-recurring event per day; read through the parser (Gregorian output) the one occurrence of each event
+ *             must be the day it was made from -- a date inside a calendar must not be rejected or moved by the reader
+ *
  * case = (scale, year); evaluations are counted per date.
  * options: mode=, y0= y1= (g2h), h0= h1= (h2g), nocount=1 (do not count non-trivial cases)
  */
@@ -36,6 +46,7 @@
 #include "tzob.h"
 #include "ref/civil_c15.h"
 #include "ref/icalio.h"
+#include "intern.h"
 /* data only: the month-start tables, for their coverage */
 #include "dat_ummulqura.c"
 #include "dat_diyanet.c"
@@ -643,6 +654,227 @@ stream_case(int pi, int ri, int di)
 	free_echs_task(tk);
 }
 
+
+/* same date and time of day (the sub-second field is left alone: all-day values carry 0 or all-ones there) */
+static bool
+same_dt(echs_instant_t a, echs_instant_t b)
+{
+	return a.y == b.y && a.m == b.m && a.d == b.d && a.H == b.H &&
+		(a.H == ECHS_ALL_DAY || (a.M == b.M && a.S == b.S));
+}
+
+/* ------------------------------------------------------------- calscale */
+/* the calendar-level output scale.  The name is whatever the parser makes of it: the k-th occurrence is judged in
+ * the scale it is labelled with, so a name that reads as another variant (known quirk of the name reader) is
+ * counted, not reported. */
+#define CS_COUNT	1500
+#define CS_NSTART	35	/* 1938, 1942, .. 2074: 1500 days > 4 years, the spans overlap */
+
+static void
+calscale_case(int pi, int form, int Y)
+{
+	const long z0 = cvl_days(Y, 1, 1);
+	char text[1024], sig[160], b1[32], b2[32], b3[32];
+	echs_task_t tk;
+	int lbl = -1;
+	int k;
+
+	snprintf(text, sizeof(text),
+		 "BEGIN:VCALENDAR\nVERSION:2.0\nCALSCALE:%s\nBEGIN:VEVENT\nUID:c15cs@verif\nSUMMARY:true\n"
+		 "DTSTART%s:%04d0101%s\nRRULE:FREQ=DAILY;COUNT=%d\nEND:VEVENT\nEND:VCALENDAR\n",
+		 pname[pi].name, form ? "" : ";VALUE=DATE", Y, form ? "T120000Z" : "", CS_COUNT);
+	tk = ical_task1(text);
+	if (tk == NULL || tk->strm == NULL) {
+		snprintf(sig, sizeof(sig), "calscale/no-task/%s", form ? "timed" : "allday");
+		vd_viol(sig, "parser produced no task/stream");
+		return;
+	}
+	for (k = 0; k < CS_COUNT + 2; k++) {
+		const echs_event_t e = echs_evstrm_pop(tk->strm);
+		const struct cvl_ymd_s c = cvl_civil(z0 + k);
+		echs_instant_t g = mkinst(SCALE_GREGORIAN, c.y, c.m, c.d), want, got;
+		struct tab_s t;
+		int s;
+
+		vd_sh->evals++;
+		if (echs_nul_instant_p(e.from)) {
+			break;
+		}
+		if (k >= CS_COUNT) {
+			snprintf(sig, sizeof(sig), "calscale/beyond-count/%s", form ? "timed" : "allday");
+			vd_viol(sig, "occurrence #%d of a COUNT=%d rule", k + 1, CS_COUNT);
+			break;
+		}
+		s = (int)echs_instant_scale(e.from);
+		if (lbl < 0) {
+			lbl = s;
+			if (s != pname[pi].s) {
+				vd_count("calscale_name_read_as_other_scale", 1);
+			}
+		} else if (s != lbl) {
+			snprintf(sig, sizeof(sig), "calscale/label-changes/%s/%s", form ? "timed" : "allday", fillclass(k));
+			vd_viol(sig, "occurrence #%d is labelled %s, the ones before %s", k + 1, sname[s], sname[lbl]);
+			break;
+		}
+		t = table(s);
+		if (gcover(&t, z0 + k) != 0) {
+			/* the table ends (or has not begun): what the stream does there is not ours to judge */
+			vd_count("calscale_events_left_at_the_table_end", 1);
+			break;
+		}
+		if (form) {
+			g.H = 12, g.M = 0, g.S = 0, g.ms = 0;
+		}
+		want = echs_instant_detach_scale(echs_instant_rescale(g, (echs_scale_t)s));
+		got = echs_instant_detach_tzob(echs_instant_detach_scale(e.from));
+		if (!same_dt(got, want)) {
+			const char *cls = "other";
+			if (got.y == want.y && got.m == want.m + 1U && got.d <= 2U && want.d >= 29U) {
+				cls = "end-of-month-becomes-next-month";
+			} else if (got.y == want.y && got.m == want.m && got.d == want.d) {
+				cls = "time-part";
+			}
+			snprintf(sig, sizeof(sig), "calscale/not-the-image/%s/%s/%s/%s", form ? "timed" : "allday", tname[s], cls, fillclass(k));
+			vd_viol(sig, "occurrence #%d is %s %s; DTSTART + %d days is %04d-%02d-%02d whose image (echs_instant_rescale) is %s; back to Gregorian the delivered date is %s",
+				k + 1, sname[s], inst_str(b1, sizeof(b1), got), k, c.y, c.m, c.d, inst_str(b2, sizeof(b2), want),
+				inst_str(b3, sizeof(b3), echs_instant_rescale(e.from, SCALE_GREGORIAN)));
+			break;
+		}
+	}
+	if (k >= CS_COUNT) {
+		NONTRIVIAL();
+	} else if (k < CS_COUNT && echs_nul_instant_p(echs_evstrm_next(tk->strm).from)) {
+		const struct tab_s t = table(lbl < 0 ? pname[pi].s : lbl);
+		/* the stream computes 63 days per fill; a fill that reaches beyond the table is lost as a whole (the
+		 * stream ends up to a fill before the table does): that is the stream's matter, not the conversion's */
+		if (gcover(&t, z0 + k) == 0 && gcover(&t, z0 + k + 64) == 0) {
+			snprintf(sig, sizeof(sig), "calscale/early-end/%s/%s", form ? "timed" : "allday", fillclass(k));
+			vd_viol(sig, "the stream ends after %d of %d occurrences although the next 64 days lie inside the calendar", k, CS_COUNT);
+		} else {
+			vd_count("calscale_ends_a_fill_before_table_end", 1);
+		}
+	}
+	vd_sample("calscale %s: DTSTART %04d-01-01%s FREQ=DAILY;COUNT=%d delivered in %s: %d occurrences compared", pname[pi].name, Y,
+		  form ? "T12:00:00Z" : "", CS_COUNT, lbl < 0 ? "?" : sname[lbl], k);
+	free_echs_task(tk);
+}
+
+/* ------------------------------------------------------------- text */
+/* names the reader takes for what they say when the value follows directly (`;SCALE=<name>:<digits>'); HIJRI.IC and
+ * HIJRI.IIC are read as IA / IIA (known quirk of the name reader, not a matter of the conversion) and left out */
+static const struct {
+	const char *name;
+	int s;
+} xname[] = {
+	{"HIJRI", SCALE_HIJRI_UMMULQURA}, {"HIJRI.UMMULQURA", SCALE_HIJRI_UMMULQURA}, {"HIJRI.DIYANET", SCALE_HIJRI_DIYANET},
+	{"HIJRI.IA", SCALE_HIJRI_IA}, {"HIJRI.IIA", SCALE_HIJRI_IIA},
+	{"HIJRI.IIIA", SCALE_HIJRI_IIIA}, {"HIJRI.IIIC", SCALE_HIJRI_IIIC}, {"HIJRI.IVA", SCALE_HIJRI_IVA}, {"HIJRI.IVC", SCALE_HIJRI_IVC},
+};
+
+static const char*
+dclass(echs_instant_t h)
+{
+	/* what the digits look like to a reader that thinks of Gregorian months */
+	static const int md[] = {0, 31, 29, 31, 30, 31, 30, 31, 31, 30, 31, 30, 31};
+	if (h.m >= 1 && h.m <= 12 && (int)h.d > md[h.m]) {
+		return "no-such-gregorian-day";
+	} else if (h.d == 30) {
+		return "day30";
+	} else if (h.m == 2 && h.d == 29) {
+		return "02-29";
+	}
+	return "plain";
+}
+
+static void
+text_year(int xi, int form, int Y)
+{
+	static char text[366 * 160 + 256];
+	static echs_task_t tk[366];
+	static echs_instant_t H[366];
+	static long Z[366];
+	const int s = xname[xi].s;
+	const struct tab_s t = table(s);
+	const long zbeg = cvl_days(Y, 1, 1), zend = cvl_days(Y, 12, 31);
+	char sig[160], b1[32], b2[32];
+	size_t len = 0, n = 0, nt;
+	long nok = 0;
+
+	len += (size_t)snprintf(text + len, sizeof(text) - len, "BEGIN:VCALENDAR\nVERSION:2.0\n");
+	for (long z = zbeg; z <= zend; z++) {
+		const struct cvl_ymd_s c = cvl_civil(z);
+		echs_instant_t h;
+
+		if (gcover(&t, z) != 0) {
+			continue;
+		}
+		h = echs_instant_rescale(mkinst(SCALE_GREGORIAN, c.y, c.m, c.d), (echs_scale_t)s);
+		if (echs_nul_instant_p(h)) {
+			continue;	/* g2h reports that */
+		}
+		h = echs_instant_detach_scale(h);
+		H[n] = h, Z[n] = z;
+		len += (size_t)snprintf(text + len, sizeof(text) - len,
+			"BEGIN:VEVENT\nUID:c15tx%03zu@verif\nSUMMARY:true\nDTSTART%s;SCALE=%s:%04u%02u%02u%s\nEND:VEVENT\n",
+			n, form ? "" : ";VALUE=DATE", xname[xi].name, h.y, h.m, h.d, form ? "T120000Z" : "");
+		n++;
+	}
+	len += (size_t)snprintf(text + len, sizeof(text) - len, "END:VCALENDAR\n");
+	vd_sh->evals += (long)n;
+	if (n == 0) {
+		return;
+	}
+	nt = ical_tasks(tk, 366, text, len);
+	/* tasks come in the order of the text; match them by UID so that a dropped event does not shift the rest */
+	for (size_t i = 0, j = 0; i < n; i++) {
+		char uid[32];
+		const char *tu;
+		echs_event_t e;
+
+		snprintf(uid, sizeof(uid), "c15tx%03zu@verif", i);
+		tu = j < nt && tk[j]->oid ? obint_name(tk[j]->oid) : NULL;
+		if (tu == NULL || strcmp(tu, uid)) {
+			const struct cvl_ymd_s c = cvl_civil(Z[i]);
+			snprintf(sig, sizeof(sig), "text/rejected/%s/%s/%s", form ? "timed" : "allday", tname[s], dclass(H[i]));
+			vd_viol(sig, "%04d-%02d-%02d is %s %s (echs_instant_rescale), but DTSTART%s;SCALE=%s:%04u%02u%02u%s yields no event",
+				c.y, c.m, c.d, sname[s], inst_str(b1, sizeof(b1), H[i]), form ? "" : ";VALUE=DATE", xname[xi].name,
+				H[i].y, H[i].m, H[i].d, form ? "T120000Z" : "");
+			continue;
+		}
+		e = tk[j]->strm ? echs_evstrm_pop(tk[j]->strm) : (echs_event_t){.from = echs_nul_instant()};
+		j++;
+		{
+			const struct cvl_ymd_s c = cvl_civil(Z[i]);
+			echs_instant_t want = mkinst(SCALE_GREGORIAN, c.y, c.m, c.d);
+			if (form) {
+				want.H = 12, want.M = 0, want.S = 0, want.ms = 0;
+			}
+			if (echs_nul_instant_p(e.from)) {
+				snprintf(sig, sizeof(sig), "text/no-occurrence/%s/%s/%s", form ? "timed" : "allday", tname[s], dclass(H[i]));
+				vd_viol(sig, "%04d-%02d-%02d written as DTSTART%s;SCALE=%s:%04u%02u%02u%s yields an event without occurrence",
+					c.y, c.m, c.d, form ? "" : ";VALUE=DATE", xname[xi].name, H[i].y, H[i].m, H[i].d, form ? "T120000Z" : "");
+			} else if (!same_dt(echs_instant_detach_tzob(e.from), want) || echs_instant_scale(e.from) != SCALE_GREGORIAN) {
+				snprintf(sig, sizeof(sig), "text/roundtrip/%s/%s/%s", form ? "timed" : "allday", tname[s], dclass(H[i]));
+				vd_viol(sig, "%04d-%02d-%02d is %s %s, but DTSTART%s;SCALE=%s:%04u%02u%02u%s reads back as %s (scale label %d)",
+					c.y, c.m, c.d, sname[s], inst_str(b1, sizeof(b1), H[i]), form ? "" : ";VALUE=DATE", xname[xi].name,
+					H[i].y, H[i].m, H[i].d, form ? "T120000Z" : "", inst_str(b2, sizeof(b2), e.from), (int)echs_instant_scale(e.from));
+			} else {
+				nok++;
+			}
+		}
+	}
+	for (size_t j = 0; j < nt; j++) {
+		free_echs_task(tk[j]);
+	}
+	if (nok == (long)n) {
+		NONTRIVIAL();
+	}
+	vd_count("text_dates_written", (long)n);
+	vd_count("text_dates_read_back_as_themselves", nok);
+	vd_sample("text %s (%s): %zu days of %d written in %s digits, %ld read back as themselves; e.g. %04u%02u%02u", xname[xi].name,
+		  form ? "date-time" : "date", n, Y, sname[s], nok, H[n - 1].y, H[n - 1].m, H[n - 1].d);
+}
+
 static void
 enumerate(void)
 {
@@ -752,6 +984,31 @@ enumerate(void)
 						sstart[di][0], sstart[di][1], sstart[di][2], srule[ri].freq, pname[pi].name, srule[ri].count);
 					vd_shape("stream/%s/%s", srule[ri].freq, tname[pname[pi].s]);
 					stream_case((int)pi, (int)ri, (int)di);
+				}
+			}
+		}
+	} else if (!strcmp(mode, "calscale")) {
+		for (int form = 0; form < 2; form++) {
+			for (int i = 0; i < CS_NSTART; i++) {
+				for (size_t pi = 0; pi < sizeof(pname) / sizeof(*pname); pi++) {
+					const int Y = 1938 + 4 * i;
+					if (!vd_next()) continue;
+					vd_desc("calscale: CALSCALE:%s DTSTART%s:%04d0101%s RRULE:FREQ=DAILY;COUNT=%d, delivered in the calendar's scale",
+						pname[pi].name, form ? "" : ";VALUE=DATE", Y, form ? "T120000Z" : "", CS_COUNT);
+					vd_shape("calscale/%s/%s", form ? "timed" : "allday", tname[pname[pi].s]);
+					calscale_case((int)pi, form, Y);
+				}
+			}
+		}
+	} else if (!strcmp(mode, "text")) {
+		for (int form = 0; form < 2; form++) {
+			for (int Y = y0; Y <= y1; Y++) {
+				for (size_t xi = 0; xi < sizeof(xname) / sizeof(*xname); xi++) {
+					if (!vd_next()) continue;
+					vd_desc("text: every day of %d as DTSTART%s;SCALE=%s:<image>%s, one event each, read back in Gregorian",
+						Y, form ? "" : ";VALUE=DATE", xname[xi].name, form ? "T120000Z" : "");
+					vd_shape("text/%s/%s", form ? "timed" : "allday", tname[xname[xi].s]);
+					text_year((int)xi, form, Y);
 				}
 			}
 		}
